@@ -262,6 +262,9 @@ def step (toks : List String) : String :=
     (do let (t, c) ← RS.new n.toInt!
         let c := (chunks.splitOn ",").foldl (fun c ch => RS.write t c (parseHex ch)) c
         pure (RS.sum t c [])).render hexOf
+  | ["rs.enc2", n, ha, _, hb] =>
+    (do let (t, c) ← RS.new n.toInt!
+        pure (hexOf (RS.sum t (RS.write t c (parseHex ha)) []) ++ " " ++ hexOf (RS.sum t (RS.write t c (parseHex hb)) []))).render id
   | ["rs.dec", twoS, h] => (RS.decode (parseHex h) twoS.toInt!).render hexOf
   | ["bmp.mask", i, u, p] => (Bitmap.Image.mask (parseImage i) (parseImage u) (parseImage p)).render Bitmap.Image.render
   | ["bmp.at", i, x, y] => ((parseImage i).binaryAt x.toInt! y.toInt!).render toString
